@@ -311,3 +311,106 @@ Definition hmon_no_two (c : hcase) : bool :=
 
 Definition hmons (l : list hcase) :=
   mon_idx [hmon_only_if; hmon_if; hmon_like; hmon_after_record; hmon_requests; hmon_no_two] l.
+
+(* ================================================================================== *)
+(* truly parallel checks: driver "seenconc"                                            *)
+(* ================================================================================== *)
+(* Phase A: sequential operations (the store is observed after each).  Phase B: the operations run
+   IN PARALLEL, one goroutine each, all started after phase A has returned; the store and the
+   counter are observed once they have all returned.  Phase C: sequential again.  No URL that is
+   WRITTEN by a phase-B operation occurs in another phase-B operation, so the outcome does not
+   depend on the interleaving: the model runs phase B in list order. *)
+Record cstep := CS { cs_pre : bool; cs_tree : item; cs_after : item; cs_req : list N }.
+Record ccase := CC {
+  cc_a : list (cstep * list (N * N));
+  cc_b : list cstep; cc_store_b : list (N * N); cc_count_b : N;
+  cc_c : list (cstep * list (N * N)) }.
+
+Definition cstep_model (s : store) (c : cstep) : option store :=
+  if cs_pre c then
+    match pre_core (seencheck_item hid) s (cs_tree c) with
+    | None => None
+    | Some (s', t') =>
+      if item_eqb t' (cs_after c) && listN_eqb (req_pred (max_depth (cs_tree c)) t') (cs_req c)
+      then Some s' else None
+    end
+  else
+    let '(s', t') := seencheck_item hid s (cs_tree c) in
+    if item_eqb t' (cs_after c) && listN_eqb [] (cs_req c) then Some s' else None.
+
+Fixpoint cseq (s : store) (l : list (cstep * list (N * N))) : option store :=
+  match l with
+  | [] => Some s
+  | (c, obs) :: r =>
+    match cstep_model s c with
+    | Some s' => if store_matches s' obs then cseq s' r else None
+    | None => None
+    end
+  end.
+Fixpoint cpar (s : store) (l : list cstep) : option store :=
+  match l with
+  | [] => Some s
+  | c :: r => match cstep_model s c with Some s' => cpar s' r | None => None end
+  end.
+
+Definition cdiff_case (c : ccase) : bool :=
+  match cseq [] (cc_a c) with
+  | None => true
+  | Some sa =>
+    match cpar sa (cc_b c) with
+    | None => true
+    | Some sb =>
+      negb (store_matches sb (cc_store_b c) && (N.of_nat (length sb - length sa) =? cc_count_b c))
+      || match cseq sb (cc_c c) with None => true | Some _ => false end
+    end
+  end.
+Definition cdiffs (l : list ccase) := bad_idx cdiff_case l.
+
+(* monitors: the reference set (URL -> strongest type checked so far) is threaded through the
+   phases; for a phase-B operation "the store before" is the store after phase A (what had been
+   recorded, completely, before the operation started) and "the store after" is the store after
+   phase B *)
+Definition cmon_step (prev now : list (N * N)) (ref : list (N * kind)) (c : cstep) : list (N * kind) * bool * bool :=
+  let '(ref', a, o) := mon_level (cs_pre c) (cs_tree c) prev now [] ref (level_after (cs_tree c) (cs_after c)) in
+  (ref', a, o && only_level_marked (cs_tree c) (cs_after c)).
+
+Fixpoint cmon_seq (prev : list (N * N)) (ref : list (N * kind)) (l : list (cstep * list (N * N)))
+  : list (N * kind) * list (N * N) * (bool * bool * bool) :=
+  match l with
+  | [] => (ref, prev, (true, true, true))
+  | (c, obs) :: r =>
+    let '(ref', a, o) := cmon_step prev obs ref c in
+    let '(ref'', last, (a', o', e')) := cmon_seq obs ref' r in
+    (ref'', last, (a && a', o && o', store_is_ref ref' obs && e'))
+  end.
+Fixpoint cmon_par (prev now : list (N * N)) (ref : list (N * kind)) (l : list cstep) : list (N * kind) * (bool * bool) :=
+  match l with
+  | [] => (ref, (true, true))
+  | c :: r =>
+    let '(ref', a, o) := cmon_step prev now ref c in
+    let '(ref'', (a', o')) := cmon_par prev now ref' r in
+    (ref'', (a && a', o && o'))
+  end.
+
+Definition cmon_all (c : ccase) : bool * bool * bool :=
+  let '(refa, sa, (a1, o1, e1)) := cmon_seq [] [] (cc_a c) in
+  let '(refb, (a2, o2)) := cmon_par sa (cc_store_b c) refa (cc_b c) in
+  let e2 := store_is_ref refb (cc_store_b c) in
+  let '(_, _, (a3, o3, e3)) := cmon_seq (cc_store_b c) refb (cc_c c) in
+  (a1 && a2 && a3, o1 && o2 && o3, e1 && e2 && e3).
+
+(* cm0 seen_after_record, cm1 seen_only_if_reported, cm2 store_exact (after the parallel phase the
+   store is the union), cm3 requests *)
+Definition cmon_after_record (c : ccase) : bool := fst (fst (cmon_all c)).
+Definition cmon_only_if_reported (c : ccase) : bool := snd (fst (cmon_all c)).
+Definition cmon_store_exact (c : ccase) : bool := snd (cmon_all c).
+Definition cmon_requests (c : ccase) : bool :=
+  forallb (fun s =>
+    if cs_pre s then
+      let lvl := nodes_at (max_depth (cs_tree s)) (cs_after s) in
+      forallb (fun n => if skipped true n then negb (existsb (N.eqb (id_of n)) (cs_req s))
+                        else status_eqb (st_of n) PreProcessed && existsb (N.eqb (id_of n)) (cs_req s)) lvl
+    else listN_eqb [] (cs_req s)) (map fst (cc_a c) ++ cc_b c ++ map fst (cc_c c)).
+
+Definition cmons (l : list ccase) :=
+  mon_idx [cmon_after_record; cmon_only_if_reported; cmon_store_exact; cmon_requests] l.
